@@ -118,7 +118,7 @@ fn i(op: u32, rt: Option<u32>, rid: Option<u32>, ops: Vec<SOp>) -> SInst { SInst
 fn idr(n: u32) -> SOp { SOp::one("IdRef", n) }
 fn lit(n: u32) -> SOp { SOp::one("LiteralBit32", n) }
 
-pub struct Sub { pub insts: Vec<SInst>, pub next: u32, pub t_void: u32, pub t_bool: u32, pub t_u32: u32, pub t_i32: u32, pub t_f32: u32, pub t_v4: u32, pub t_fn: u32,
+pub struct Sub { pub insts: Vec<SInst>, pub next: u32, pub t_void: u32, pub t_bool: u32, pub t_u32: u32, pub t_i32: u32, pub t_f32: u32, pub t_v4: u32, pub t_fn: u32, pub t_ptr: u32, pub t_st: u32, pub t_arr2: u32, pub c_i: u32, pub c_v: u32,
                  pub c_u: u32, pub c_f: u32, pub consts: Vec<u32>, pub types: Vec<u32> }
 
 /// declarations of the supported subset: scalar, vector, matrix, pointer, array, struct, function types; 32-bit constants and composites
@@ -149,9 +149,21 @@ pub fn subset_prelude(rng: &mut Rng) -> Sub {
     let c_fl = f(); v.push(i(42, Some(t_bool), Some(c_fl), vec![]));
     let c_v = f(); v.push(i(44, Some(t_v4), Some(c_v), vec![idr(c_f), idr(c_f), idr(c_f), idr(c_f)]));
     let c_n = f(); v.push(i(46, Some(t_v4), Some(c_n), vec![]));
+    // declarations that lift to EQUAL values under different ids (each declaration is its own constant), and a
+    // composite naming the later copies
+    let c_2 = f(); v.push(i(43, Some(t_u32), Some(c_2), vec![lit(2)]));
+    let c_2b = f(); v.push(i(43, Some(t_u32), Some(c_2b), vec![lit(2)]));
+    let c_fb = f(); v.push(i(43, Some(t_f32), Some(c_fb), vec![lit(0x3f80_0000)]));
+    let c_n2 = f(); v.push(i(46, Some(t_f32), Some(c_n2), vec![]));
+    let c_n3 = f(); v.push(i(46, Some(t_v4), Some(c_n3), vec![]));
+    let c_tb = f(); v.push(i(41, Some(t_bool), Some(c_tb), vec![]));
+    let t_arr2 = f(); v.push(i(28, None, Some(t_arr2), vec![idr(t_f32), idr(c_2b)]));
+    let c_v2 = f(); v.push(i(44, Some(t_v4), Some(c_v2), vec![idr(c_fb), idr(c_f), idr(c_n2), idr(c_fb)]));
+    let c_a = f(); v.push(i(44, Some(t_arr2), Some(c_a), vec![idr(c_fb), idr(c_n2)]));
     let next = n;
-    Sub { insts: v, next, t_void, t_bool, t_u32, t_i32, t_f32, t_v4, t_fn, c_u, c_f, consts: vec![c_u, c_i, c_f, c_t, c_fl, c_v, c_n],
-          types: vec![t_void, t_bool, t_u32, t_i32, t_f32, t_v4, t_m4, t_arr, t_st, t_ptr, t_fn, t_fn2] }
+    Sub { insts: v, next, t_void, t_bool, t_u32, t_i32, t_f32, t_v4, t_fn, t_ptr, t_st, t_arr2, c_i, c_v, c_u, c_f,
+          consts: vec![c_u, c_i, c_f, c_t, c_fl, c_v, c_n, c_2, c_2b, c_fb, c_n2, c_n3, c_tb, c_v2, c_a],
+          types: vec![t_void, t_bool, t_u32, t_i32, t_f32, t_v4, t_m4, t_arr, t_st, t_ptr, t_fn, t_fn2, t_arr2] }
 }
 
 pub fn subset_module(rng: &mut Rng, body_ops: &[SInst]) -> Vec<SInst> {
@@ -165,6 +177,8 @@ pub fn subset_module(rng: &mut Rng, body_ops: &[SInst]) -> Vec<SInst> {
         let nb = 1 + rng.below(3);
         let mut labels: Vec<u32> = vec![];
         let mut values_f: Vec<u32> = vec![];
+        // values of pointer / struct / vector / array type, defined by block instructions
+        let mut pools: Vec<(u32, Vec<u32>)> = vec![(s.t_ptr, vec![]), (s.t_st, vec![]), (s.t_v4, vec![]), (s.t_arr2, vec![])];
         for b in 0..nb {
             let l = n; n += 1;
             v.push(i(248, None, Some(l), vec![]));
@@ -175,12 +189,30 @@ pub fn subset_module(rng: &mut Rng, body_ops: &[SInst]) -> Vec<SInst> {
                     v.push(i(245, Some(s.t_f32), Some(p), vec![idr(values_f[0]), idr(labels[0]), idr(values_f[1]), idr(labels[0])]));
                 }
             }
+            // phis of non-scalar types fed by values earlier instructions defined
+            if b > 0 {
+                for (t, vals) in pools.iter() {
+                    if !vals.is_empty() && rng.chance(1, 2) {
+                        let p = n; n += 1;
+                        v.push(i(245, Some(*t), Some(p), vec![idr(*rng.pick(vals)), idr(labels[0]), idr(*rng.pick(vals)), idr(*rng.pick(&labels))]));
+                    }
+                }
+            }
             for _ in 0..rng.below(4) {
                 let r = n; n += 1;
                 let a = if values_f.is_empty() || rng.chance(1, 2) { s.c_f } else { *rng.pick(&values_f) };
                 let op = *rng.pick(&[129u32, 131, 133]); // FAdd FSub FMul
                 v.push(i(op, Some(s.t_f32), Some(r), vec![idr(a), idr(s.c_f)]));
                 values_f.push(r);
+            }
+            for _ in 0..rng.below(3) {
+                let r = n; n += 1;
+                match rng.below(4) {
+                    0 => { v.push(i(59, Some(s.t_ptr), Some(r), vec![SOp::one("StorageClass", 7)])); pools[0].1.push(r); }
+                    1 => { v.push(i(80, Some(s.t_st), Some(r), vec![idr(s.c_f), idr(s.c_i), idr(s.c_v)])); pools[1].1.push(r); }
+                    2 => { v.push(i(80, Some(s.t_v4), Some(r), vec![idr(s.c_f), idr(s.c_f), idr(s.c_f), idr(s.c_f)])); pools[2].1.push(r); }
+                    _ => { v.push(i(80, Some(s.t_arr2), Some(r), vec![idr(s.c_f), idr(s.c_f)])); pools[3].1.push(r); }
+                }
             }
             if fi == 0 && b == 0 {
                 for o in body_ops { let mut o = o.clone(); if o.rid.is_some() { o.rid = Some(n); n += 1; } v.push(o); }
